@@ -232,12 +232,20 @@ def gen_param_hierarchy(rng):
        "  def construct(s, T, " + ", ".join(f"{n}={d}" for n, d in zip(pnames, defaults)) + "):",
        "    s.i = InPort(T); s.o = OutPort(T)"]
   terms = []
+  # every parameter reaches the update block as a constant, in one of four ways: a closure variable, an int attribute of
+  # the component, a Bits attribute, or an element of a list attribute (constants read through `s.` are extracted per instance)
+  how = [rng.choice(["closure", "attr", "bitsattr", "listattr"]) for _ in pnames]
+  L.append("    s.kl = [" + ", ".join(f"T(int({n}) & 7)" for n in pnames) + "]")
+  kx = []
   for k, n in enumerate(pnames):
-    L.append(f"    K{k} = int({n}) & 7")
+    if how[k] == "closure": L.append(f"    K{k} = int({n}) & 7"); kx.append(f"K{k}")
+    elif how[k] == "attr": L.append(f"    s.k{k} = int({n}) & 7"); kx.append(f"s.k{k}")
+    elif how[k] == "bitsattr": L.append(f"    s.k{k} = T(int({n}) & 7)"); kx.append(f"s.k{k}")
+    else: kx.append(f"s.kl[{k}]")
   L += ["    @update", "    def up():"]
   expr = "s.i"
   for k in range(nd):
-    expr = f"(({expr} + K{k}) ^ {k + 1})" if k % 2 == 0 else f"(({expr} ^ K{k}) + {k + 1})"
+    expr = f"(({expr} + {kx[k]}) ^ {k + 1})" if k % 2 == 0 else f"(({expr} ^ {kx[k]}) + {k + 1})"
   L.append(f"      s.o @= {expr}")
   pool = sorted(set(defaults) | {0, 1, rng.randrange(8)} | ({-1, -2} if rng.random() < 0.4 else set()))      # hash(-1) == hash(-2)
   ninst = rng.randrange(2, 7)
